@@ -33,7 +33,7 @@ contract("C09.report_missing_or_invalid_value", file=DV, func="DefValidator._rep
 # C09: "validation accepts a Def-expand group exactly when its content equals that expansion up to sibling order"
 contract("C09.validate_def_contents", file=DV, func="DefValidator._validate_def_contents",
          params={"self": "DefValidator", "def_tag": "HedTag", "def_expand_group": "HedGroup", "hed_validator": "Opaque"},
-         returns="List[Issue]", enc="native",
+         returns="List[Issue]", enc="native", also=["C01", "C04"],     # "altered Def-expand" (C01), "up to sibling order" (C04)
          lets={"label": "def_tag.extension.partition('/')[0].casefold()", "value": "def_tag.extension.partition('/')[2]",
                "is_expand": "not struct_equal(def_expand_group, def_tag)"},
          ensures={
